@@ -128,6 +128,32 @@ theorem C08_transparent_store (F : Facts) (st : Bool) (sg : List (TyKey × Hook)
   have := obs_eq_of_equiv F s f k.ok gf.1 e t
   exact ⟨this.2.2, this.1, this.2.1⟩
 
+/-! ## fallback factories whose hooks are built out of other hooks
+
+`unstructure_fallback_factory` / `structure_fallback_factory` are construction options; the documented uses (chained
+converters, factories composing `conv.get_*_hook(field type)`) make hooks that DEPEND on the current registrations.
+`dispatch_without_caching` asks the fallback factory exactly when `FunctionDispatch.dispatch` found no entry, with the type
+alone: a composing fallback factory is one more factory entry of the constructor's predicate list, LAST, with an
+always-true predicate (row `p` of `Facts.holds`), looking its component hooks up cached or uncached (`sub`).  Every theorem
+above quantifies over all `Cfg`, so it covers such converters; the instance is spelled out because the check ties it to
+the code (`dispatch_common.COMPOSE_FB`: histories and the immediacy sweep under such factories go through `RUNHIST`). -/
+
+/-- `cfg` constructed with a composing fallback factory (tag `fb`) -/
+def withComposingFallback (cfg : Cfg) (fb p : Nat) (sub : SubMode) : Cfg :=
+  { cfg with fb := fb, preds := cfg.preds ++ [{ pred := .tbl p, kind := .factory, tag := fb, builtin := true, sub := sub }] }
+
+/-- **C08_composing_fallback.**  A converter whose fallback factory composes the hooks of component types: after any
+interleaving, every call / cached / uncached dispatch equals that of a fresh converter replaying only the registrations, and
+equals the cache-free lookup for the registrations -- in particular a hook the fallback made before a registration for one of
+its component types is not served afterwards. -/
+theorem C08_composing_fallback (F : Facts) (cfg : Cfg) (fb p : Nat) (sub : SubMode) (ops : List Op) (t : TyKey) :
+    let c := withComposingFallback cfg fb p sub
+    (call F (run F (init c) ops) t).2 = (call F (run F (init c) (ops.filter Op.isReg)) t).2 ∧
+    (dispatch F (run F (init c) ops) t).2 = resolve F (run F (init c) (ops.filter Op.isReg)).regs t ∧
+    (dispatchUncached F (run F (init c) ops) t).2 = resolve F (run F (init c) (ops.filter Op.isReg)).regs t := by
+  intro c
+  exact ⟨(C08_fresh_replay F c ops t).1, (C08_transparent F c ops t).1, (C08_transparent F c ops t).2⟩
+
 /-! ## non-vacuity -/
 namespace C08ex
 
@@ -181,6 +207,25 @@ example : (srun F [init cfg] shist).map (fun s => (dispatch F s 2).2) =
     [ .made 202 2 false [.builtin 100, .made 201 1 false [.user 7]],
       .made 202 2 false [.builtin 100, .made 301 1 false [.made 200 0 false []]] ] := by decide
 example : (origins [cfg] shist).map (fun o => (o.hist.filter Op.isReg).length) = [1, 0] := rfl
+
+/-- 4 = a plain class no entry handles; the composing fallback factory (7005, cached look-ups; predicate row 9 = always
+true) builds its hook out of the hook of class A (component 0) -/
+def Ffb : Facts :=
+  { F with holds := fun p t => p == 9 || F.holds p t
+           comps := fun t => match t with | 4 => [0] | t => F.comps t
+           rank := fun t => match t with | 4 => 1 | t => F.rank t }
+
+def cfgFb : Cfg := withComposingFallback cfg 7005 9 .cached
+
+-- the fallback is reached for type 4 and composes A's current hook; the hook sits in the lru cache afterwards
+example : (dispatch Ffb (run Ffb (init cfgFb) [.call 4]) 4).2 = .made 7005 4 false [.made 200 0 false []] := by decide
+example : alookup (run Ffb (init cfgFb) [.call 4]).lru 4 = some (.made 7005 4 false [.made 200 0 false []]) := by decide
+-- a hook registered for A AFTER the fallback hook was made and cached is part of the next answer
+example : (dispatch Ffb (run Ffb (init cfgFb) [.call 4, .regHook 0 7]) 4).2 = .made 7005 4 false [.user 7] := by decide
+example : (dispatchUncached Ffb (run Ffb (init cfgFb) [.call 4, .dispatchNC 4, .regHook 0 7, .call 4]) 4).2
+    = .made 7005 4 false [.user 7] := by decide
+-- types with an entry of their own never reach the fallback entry
+example : (dispatch Ffb (run Ffb (init cfgFb) []) 1).2 = .made 201 1 false [.made 200 0 false []] := by decide
 
 end C08ex
 end CattrsModel
